@@ -49,13 +49,86 @@ class _SuppressAsTry(ast.NodeTransformer):
         return ast.fix_missing_locations(t)
 
 
+class _MatchAsIf(ast.NodeTransformer):
+    """Front-end normalisation: a `match` over a plain name / attribute
+    whose cases are literals, `|` of literals, `None` / `True` / `False`,
+    class patterns without arguments (`case str():`) or the wildcard - with
+    or without guards - is the if / elif chain it abbreviates.  Anything
+    else (captures, sequence and mapping patterns) is left alone."""
+
+    def _test(self, subj, pat):
+        import copy
+        sub = lambda: copy.deepcopy(subj)
+        if isinstance(pat, ast.MatchValue):
+            return ast.Compare(left=sub(), ops=[ast.Eq()],
+                               comparators=[pat.value])
+        if isinstance(pat, ast.MatchSingleton):
+            return ast.Compare(left=sub(), ops=[ast.Is()],
+                               comparators=[ast.Constant(value=pat.value)])
+        if isinstance(pat, ast.MatchOr):
+            parts = [self._test(subj, x) for x in pat.patterns]
+            if any(x is None for x in parts):
+                return None
+            if all(isinstance(x, ast.Compare) and isinstance(
+                    x.ops[0], ast.Eq) for x in parts):
+                return ast.Compare(left=sub(), ops=[ast.In()], comparators=[
+                    ast.Tuple(elts=[x.comparators[0] for x in parts],
+                              ctx=ast.Load())])
+            return ast.BoolOp(op=ast.Or(), values=parts)
+        if isinstance(pat, ast.MatchClass) and not pat.patterns and \
+                not pat.kwd_patterns:
+            return ast.Call(func=ast.Name(id='isinstance', ctx=ast.Load()),
+                            args=[sub(), pat.cls], keywords=[])
+        if isinstance(pat, ast.MatchAs) and pat.pattern is None and \
+                pat.name is None:
+            return True
+        return None
+
+    def visit_Match(self, node):
+        self.generic_visit(node)
+        subj = node.subject
+        if not isinstance(subj, (ast.Name, ast.Attribute)) or any(
+                isinstance(n, ast.Call) for n in ast.walk(subj)):
+            return node
+        arms = []
+        for c in node.cases:
+            t = self._test(subj, c.pattern)
+            if t is None:
+                return node
+            if c.guard is not None:
+                t = c.guard if t is True else ast.BoolOp(
+                    op=ast.And(), values=[t, c.guard])
+            arms.append((t, c.body, c))
+        out = None
+        for t, body, c in reversed(arms):
+            if t is True:
+                out = list(body)
+                continue
+            nif = ast.If(test=t, body=list(body), orelse=(
+                out if isinstance(out, list) else ([out] if out else [])))
+            ast.copy_location(nif, c.pattern)
+            out = nif
+        if isinstance(out, list):
+            # only a wildcard: its body, as it is
+            blk = ast.If(test=ast.Constant(value=True), body=out, orelse=[])
+            ast.copy_location(blk, node)
+            out = blk
+        if out is None:
+            return node
+        for n in ast.walk(out):
+            if not hasattr(n, 'lineno'):
+                ast.copy_location(n, node)
+        return ast.fix_missing_locations(out)
+
+
 class Module:
     def __init__(self, name, path, source):
         self.name = name
         self.path = path
         self.source = source
         self.sha256 = hashlib.sha256(source.encode()).hexdigest()
-        self.tree = _SuppressAsTry().visit(ast.parse(source, filename=path))
+        self.tree = _MatchAsIf().visit(_SuppressAsTry().visit(
+            ast.parse(source, filename=path)))
         self.imports = {}     # local name -> qualified target
         self.aliases = {}     # module-level NAME = dotted expr
         self.consts = {}      # module-level NAME = constant ast node
@@ -880,6 +953,47 @@ class Program:
                     elts.append(x)
             return type(v)(elts=elts, ctx=ast.Load())
         return v
+
+    def is_respelling(self, f):
+        """f(text) returns its argument character by character, each one
+        either as it is or as a backslash escape computed from its code
+        point only: `return ''.join(c if <test of c> else <escape of
+        ord(c)> for c in text)`.  What a reader of the escapes gets back is
+        the argument: for rules about *what* is written, f(x) is x."""
+        cache = self.__dict__.setdefault('_respell', {})
+        if f.qual in cache:
+            return cache[f.qual]
+        ok = False
+        body = [b for b in f.node.body if not (
+            isinstance(b, ast.Expr) and isinstance(b.value, ast.Constant))]
+        if len(f.params) == 1 and len(body) == 1 and isinstance(
+                body[0], ast.Return) and isinstance(body[0].value, ast.Call):
+            c = body[0].value
+            if isinstance(c.func, ast.Attribute) and c.func.attr == 'join' \
+                    and isinstance(c.func.value, ast.Constant) and \
+                    c.func.value.value == '' and len(c.args) == 1 and \
+                    isinstance(c.args[0], (ast.GeneratorExp, ast.ListComp)) \
+                    and len(c.args[0].generators) == 1:
+                g = c.args[0].generators[0]
+                elt = c.args[0].elt
+                if isinstance(g.target, ast.Name) and isinstance(
+                        g.iter, ast.Name) and g.iter.id == f.params[0] and \
+                        not g.ifs and isinstance(elt, ast.IfExp) and \
+                        isinstance(elt.body, ast.Name) and \
+                        elt.body.id == g.target.id:
+                    v = g.target.id
+                    names = {n.id for n in ast.walk(elt)
+                             if isinstance(n, ast.Name)}
+                    lits = [n.value for n in ast.walk(elt.orelse)
+                            if isinstance(n, ast.Constant)
+                            and isinstance(n.value, str) and n.value]
+                    calls = {ast.unparse(n.func) for n in ast.walk(elt)
+                             if isinstance(n, ast.Call)}
+                    ok = names <= {v, 'ord'} and calls <= {'ord'} and \
+                        bool(lits) and all(x.startswith('\\')
+                                           for x in lits)
+        cache[f.qual] = ok
+        return ok
 
     def options(self):
         """opts._options table: name -> dict(type, default(ast), choices)."""
